@@ -564,11 +564,12 @@ func hsCases(thorough bool) []hsCase {
 			for l := 0; l < n; l++ {
 				cs = append(cs, hsCase{side, f, "trunc", l, 0})
 			}
+			wireMasks := masks[:2] // quick: two masks on the wire (every byte is under the ECIES MAC), three on the plaintext
+			if thorough {
+				wireMasks = macMasks // thorough: every bit on the wire, all 255 values on the plaintext
+			}
 			for p := 0; p < n; p++ {
-				for mi, m := range masks {
-					if !thorough && mi == 2 {
-						continue // quick: two masks on the wire (every byte is under the ECIES MAC), three on the plaintext
-					}
+				for _, m := range wireMasks {
 					cs = append(cs, hsCase{side, f, "alt-wire", p, m})
 				}
 			}
